@@ -78,8 +78,8 @@ func (s *Script) Setup() {
 	must(w.AddChain(ctx, Ref2, 56, 1))
 	for _, v := range w.Vals {
 		must(w.RegisterAccounts(ctx, v, nil, Ref, Ref2))
-		must(w.App.TreasuryKeeper.SetRelayerFee(ctx, v.ValAddr, &treasurytypes.RelayerFeeSetting{ValAddress: v.ValAddr.String(), Fees: []treasurytypes.RelayerFeeSetting_FeeSetting{
-			{Multiplicator: sdkmath.LegacyMustNewDecFromStr("1.0"), ChainReferenceId: Ref}, {Multiplicator: sdkmath.LegacyMustNewDecFromStr("1.0"), ChainReferenceId: Ref2}}}))
+		fees := []treasurytypes.RelayerFeeSetting_FeeSetting{{Multiplicator: sdkmath.LegacyMustNewDecFromStr("1.0"), ChainReferenceId: Ref}, {Multiplicator: sdkmath.LegacyMustNewDecFromStr("1.0"), ChainReferenceId: Ref2}}
+		must(w.App.TreasuryKeeper.SetRelayerFee(ctx, v.ValAddr, &treasurytypes.RelayerFeeSetting{ValAddress: v.ValAddr.String(), Fees: fees}))
 	}
 	sn, err := w.Snapshot(ctx)
 	must(err)
@@ -89,7 +89,7 @@ func (s *Script) Setup() {
 	must(w.App.ValsetKeeper.SetSnapshotOnChain(ctx, sn.Id, Ref))
 	must(w.App.ValsetKeeper.SetSnapshotOnChain(ctx, sn.Id, Ref2))
 	// differentiate fees a little so that scores are not all tied, but keep two tied
-	must(w.App.TreasuryKeeper.SetRelayerFee(ctx, w.Vals[3].ValAddr, &treasurytypes.RelayerFeeSetting{ValAddress: w.Vals[3].ValAddr.String(), Fees: []treasurytypes.RelayerFeeSetting_FeeSetting{
+	must(w.App.TreasuryKeeper.SetRelayerFee(ctx, w.Vals[1].ValAddr, &treasurytypes.RelayerFeeSetting{ValAddress: w.Vals[1].ValAddr.String(), Fees: []treasurytypes.RelayerFeeSetting_FeeSetting{
 		{Multiplicator: sdkmath.LegacyMustNewDecFromStr("1.5"), ChainReferenceId: Ref}, {Multiplicator: sdkmath.LegacyMustNewDecFromStr("1.0"), ChainReferenceId: Ref2}}}))
 	must(w.App.EvmKeeper.SetSmartContractDeployer(ctx, Ref, "0x00000000000000000000000000000000000000dd"))
 	must(w.App.EvmKeeper.SetFeeManagerAddress(ctx, Ref, "0x00000000000000000000000000000000000000fe"))
@@ -109,6 +109,12 @@ func (s *Script) Setup() {
 	must(err)
 	s.denom = d
 	must(w.App.SkywayKeeper.SetBridgeTax(ctx, &skywaytypes.BridgeTax{Token: d, Rate: "1/3", ExemptAddresses: []sdk.AccAddress{w.User("U2").Addr}}))
+	// partial configurations: one validator has no relayer fee for the second chain, another none for
+	// the first (each will have metrics but no fee there when valsets are published and calls assigned)
+	must(w.App.TreasuryKeeper.SetRelayerFee(ctx, w.Vals[2].ValAddr, &treasurytypes.RelayerFeeSetting{ValAddress: w.Vals[2].ValAddr.String(), Fees: []treasurytypes.RelayerFeeSetting_FeeSetting{
+		{Multiplicator: sdkmath.LegacyMustNewDecFromStr("1.0"), ChainReferenceId: Ref}}}))
+	must(w.App.TreasuryKeeper.SetRelayerFee(ctx, w.Vals[3].ValAddr, &treasurytypes.RelayerFeeSetting{ValAddress: w.Vals[3].ValAddr.String(), Fees: []treasurytypes.RelayerFeeSetting_FeeSetting{
+		{Multiplicator: sdkmath.LegacyMustNewDecFromStr("1.0"), ChainReferenceId: Ref2}}}))
 }
 
 func (s *Script) denomName() string {
@@ -187,7 +193,7 @@ func (s *Script) TxsFor(i int, rctx sdk.Context) []Tx {
 			add(v.Actor, world.DepositClaim(v, Ref, 1, 10, Erc20, amt, "0x00000000000000000000000000000000000000bb", u1.Addr.String()))
 		}
 	case 6:
-		add(w.Vals[1].Actor, &treasurytypes.MsgUpsertRelayerFee{Metadata: world.Meta(w.Vals[1].Actor), FeeSetting: &treasurytypes.RelayerFeeSetting{ValAddress: w.Vals[1].ValAddr.String(), Fees: []treasurytypes.RelayerFeeSetting_FeeSetting{{Multiplicator: sdkmath.LegacyMustNewDecFromStr("1.0"), ChainReferenceId: Ref}}}})
+		add(w.Vals[1].Actor, &treasurytypes.MsgUpsertRelayerFee{Metadata: world.Meta(w.Vals[1].Actor), FeeSetting: &treasurytypes.RelayerFeeSetting{ValAddress: w.Vals[1].ValAddr.String(), Fees: []treasurytypes.RelayerFeeSetting_FeeSetting{{Multiplicator: sdkmath.LegacyMustNewDecFromStr("1.2"), ChainReferenceId: Ref}}}})
 		add(u2, &tftypes.MsgCreateDenom{Subdenom: "zz", Metadata: world.Meta(u2)})
 	case 7:
 		v := w.Vals[2]
